@@ -19,10 +19,12 @@ MARKER_PROPS = {
     "VF:index.heap.cost_differs_from_documented_rule": ["C19"],
     "VF:index.heap.list_cost_differs_from_documented_rule": ["C19"],
     "VF:index.heap.vec_cost": ["C19", "C18"],
+    "VF:index.heap.reserve_allocates_for_strided_sequence": ["C19"],
     "VF:index.clear": ["C05", "C08"],
     "VF:index.push_after_clear": ["C05", "C08"],
     "VF:index.reserve_changed_contents": ["C05", "C10"],
     "VF:index.with_capacity_not_empty": ["C05", "C10"],
+    "VF:index.index_past_end_returned": ["C13", "C03", "C05"],
     "VF:slice.": ["C01", "C02"],
     "VF:slice.forms.": ["C20"],
     "VF:slice_opt.": ["C01", "C02", "C03", "C05"],
@@ -30,7 +32,9 @@ MARKER_PROPS = {
     "VF:columns_coded.": ["C10"],
     "VF:columns_coded.clear": ["C08"],
     "VF:collapse.reserve": ["C11", "C10"],
-    "VF:collapse.huffman": ["C11"],
+    "VF:collapse.huffman": ["C11", "C20"],
+    "VF:collapse.clone_from_used_bytes_differ_from_clone": ["C11", "C09", "C18"],
+    "VF:wrapped.region_to_region_next_generation": ["C14", "C20"],
     "VF:owned.forms.": ["C20"],
     "VF:owned.forms.read": ["C20", "C01"],
     "VF:owned.forms.earlier_read_changed": ["C02"],
@@ -64,14 +68,18 @@ MARKER_PROPS = {
     "VF:reserve.changed_existing_read": ["C10", "C02"],
     "VF:columns.get": ["C13"],
     "VF:huffman.": ["C06"],
-    "VF:huffman.read_differs_from_pushed": ["C06", "C01", "C02"],
+    "VF:huffman.read_differs_from_pushed": ["C06", "C01", "C02", "C10"],
     "VF:huffman.raw_roundtrip": ["C06", "C01"],
+    "VF:huffman.empty_code_book": ["C06", "C10", "C01"],
     "VF:huffman.after_clear_not_raw": ["C06", "C08"],
     "VF:huffman.stats_survived_clear": ["C06", "C08"],
     "VF:coded_composite.": ["C10", "C01"],
     "VF:huffman.forms.": ["C20"],
     "VF:dictionary.": ["C07"],
-    "VF:dictionary.read_differs_from_pushed": ["C07", "C01", "C04"],
+    "VF:dictionary.read_differs_from_pushed": ["C07", "C01", "C04", "C10"],
+    "VF:dictionary.covered_value_refused": ["C07", "C01"],
+    "VF:dictionary.reserve": ["C10"],
+    "VF:dictionary.reserve.earlier_read_changed": ["C10", "C02", "C07"],
     "VF:dictionary.earlier_read_changed": ["C07", "C02"],
     "VF:dictionary.cleared_region_refused": ["C07", "C08"],
     "VF:option.forms.": ["C20"],
